@@ -38,7 +38,7 @@ BUDGET_S = {'quick': 1500, 'thorough': 2400}
 NAME_RE = '[A-Za-z0-9_.\\-]+'
 SYNTAX = set('*><,?&=:~ \t\n\r/#%+;')
 
-CONCRETE = ['hamlet/a/char/foo--start--/model,rig', 'hamlet/a/char,prop/--start--', 'hamlet/s/sq010/sh0010/**/maya?state=w', 'hamlet/a,s/**/cache,movie', 'hamlet/*/**', 'blabla?foo=bar', 'hamlet/a/char/x y ,z/model']
+CONCRETE = ['blabla/x?project=hamlet', 'hamlet/a/char/x/art/v001/p/hou?project=hamlet', 'hamlet/a/char/x/art/v001/p/ma,zzz?project=*', 'hamlet/a/char/foo--start--/model,rig', 'hamlet/a/char,prop/--start--', 'hamlet/s/sq010/sh0010/**/maya?state=w', 'hamlet/a,s/**/cache,movie', 'hamlet/*/**', 'blabla?foo=bar', 'hamlet/a/char/x y ,z/model']
 def leaf_key(T):
     base = T.split(C.conf('sidtype_keytype_sep'))[0]
     return C.conf('leaf_keys').get(base)
@@ -54,7 +54,7 @@ def cases(tier):
         n = len(spec[T]); small = n <= 5
         cs.append(('plain', T, ()))
         for i in (range(n) if thorough else sorted({0, n - 1}) if small else [n - 1]): cs.append(('star', T, (i,)))
-        for i in (range(n) if thorough else [n - 1] if small else []): cs.append(('list', T, (i,)))
+        for i in (range(n) if thorough else sorted({0, n - 1}) if small else [0]): cs.append(('list', T, (i,)))      # the first segment is handled apart by or_on_path (its start marker)
         if is_leaf_type(T):
             for a in aliases_for(T)[:1 if not thorough else 9]: cs.append(('alias', T, a))
             for i in (range(1, n) if thorough else [2]): cs.append(('tail**', T, i))
@@ -64,7 +64,7 @@ def cases(tier):
         for k in (ks if thorough else ks[-1:] if small else []): cs.append(('filter', T, k))
         if thorough and n >= 2: cs.append(('list2', T, (0, n - 1)))
     if not thorough:
-        for T in [t for t in spec if is_leaf_type(t)][:2]: cs.append(('filter', T, C.keys_of(T)[-1]))
+        for T in [t for t in spec if is_leaf_type(t)][:2]: cs.append(('filter', T, C.keys_of(T)[-1])); cs.append(('filter', T, C.keys_of(T)[0]))      # a filter on the first key meets an alias value in the last segment
     cs += [('malformed', 'two**'), ('malformed', 'root'), ('malformed', 'junk'), ('malformed', 'junk-query'), ('malformed', 'empty')]
     cs += [('concrete', x) for x in CONCRETE]
     return cs
